@@ -118,6 +118,47 @@ def agree(x, p):
             code == bytes(ref_out))
 
 
+def window(x, p):
+    """_find_repeatable_block at the edge of the history window: a marker
+    of three symbolic bytes repeated at distance D over an incompressible
+    concrete filler."""
+    D = p['D']
+    marker = x.bytes('m', 3, 1, 255)
+    # filler without any repeated 3-byte sequence and without the marker's
+    # first byte: 2-byte counters separated by a byte that never repeats
+    filler = []
+    k = 0
+    while len(filler) < D - 3:
+        filler.extend([0x80 | (k & 0x7f), 0xc0 | ((k >> 7) & 0x3f),
+                       0x21 + (k % 3)])
+        k += 1
+    filler = bytes(filler[:D - 3])
+    for c in marker:
+        x.assume(And(c < 0x80, Or(c < 0x21, c > 0x23)))
+    dat = marker + filler + marker + b'\x00'
+    pos = D
+    try:
+        blen, boff = compress._find_repeatable_block(dat, pos)
+    except Exception as e:
+        x.check('block search does not raise', False, info=repr(e))
+        return
+    x.out('found', [blen, boff])
+    if blen >= 3:
+        x.tag('match D=%d' % D)
+        x.check('offset is encodable in the first block byte (<= 3135) and '
+                'non-zero', And(boff >= 1,
+                                boff // 16 + len(
+                                    compress.COMPRESSED_LUA_CHAR_TABLE)
+                                <= 255))
+        x.check('block length 3..17', And(blen >= 3, blen <= 17))
+        x.check('the block really repeats earlier output', And(*[
+            dat[pos - boff + t] == dat[pos + t] for t in range(3)]))
+    else:
+        x.tag('no match D=%d' % D)
+        x.check('a repeat inside the 3120-byte window is found',
+                D > 3120)
+
+
 def header_sym(n):
     return b':c:\0' + bytes([n >> 8, n & 255]) + b'\0\0'
 
@@ -134,8 +175,11 @@ HARNESSES = [
                       dict(Q, n=2, mid='_update60', pre='if', post=''),
                       dict(Q, n=4, mid='_update60', pre='', post='',
                            _budget=1800)]),
+    Harness('window', window,
+            quick=[dict(Q, D=d) for d in (3119, 3120, 3121, 3135, 3136,
+                                          3137)]),
     Harness('agree', agree,
-            quick=[dict(Q, ns=3, maxlen=6)],
+            quick=[dict(Q, ns=3, maxlen=6), dict(Q, ns=4, maxlen=8)],
             thorough=[dict(Q, ns=4, maxlen=8, _budget=900),
                       dict(Q, ns=5, maxlen=8, _budget=1800)]),
 ]
